@@ -236,7 +236,7 @@ func c20(c *Ctx) {
 		{"handlePostImport", []string{"litefs.(*Store).CreateDBIfNotExists", "litefs.(*DB).Import"}, map[string]*Guard{
 			"name-required": GP("(\"\" == "+q("name")+")", false), "lease-context": G(`\(nil == context\.Context\.Err\(.*\)\)|\(context\.Context\.Err\(.*\) == nil\)`, true)}},
 		{"handlePostHalt", []string{"litefs.(*Store).CreateDBIfNotExists", "litefs.(*DB).AcquireHaltLock"}, map[string]*Guard{
-			"name-required": GP("(\"\" == "+q("name")+")", false), "id-parsed": nilOf("strconv.ParseInt(" + q("id") + ", 10, 64)#1"), "not-self": notSelf, "primary": GP("litefs.(*Store).IsPrimary(p0.store)", true)}},
+			"name-required": GP("(\"\" == "+q("name")+")", false), "id-parsed": nilOf("strconv.ParseInt(" + q("id") + ", 10, 64)#1"), "id-nonzero": GP("(0 == strconv.ParseInt("+q("id")+", 10, 64)#0)", false), "not-self": notSelf, "primary": GP("litefs.(*Store).IsPrimary(p0.store)", true)}},
 		{"handleDeleteHalt", []string{"litefs.(*DB).ReleaseHaltLock"}, map[string]*Guard{
 			"id-parsed": nilOf("strconv.ParseInt(" + q("id") + ", 10, 64)#1"), "not-self": notSelf, "db-exists": GP("(litefs.(*Store).DB(@@) == nil)", false)}},
 		{"handlePostTx", []string{"litefs.(*DB).WriteLTXFileAt", "litefs.(*DB).ApplyLTXNoLock"}, map[string]*Guard{
@@ -262,6 +262,7 @@ func c20(c *Ctx) {
 	}
 
 	c.pageSizeBeforeCreate("validate-first/handlePostTx/body")
+	c.importBodyBeforeCreate("validate-first/handlePostImport")
 
 	// ---- no-fatal ----
 	{
@@ -506,4 +507,28 @@ func shortNames(fs []string) string {
 		s = append(s, f[strings.LastIndex(f, ".")+1:])
 	}
 	return strings.Join(s, ", ")
+}
+
+// importBodyBeforeCreate (C16, C20): the import endpoint creates the named
+// database only after it has looked at the request body - a body that is no
+// database image must leave nothing behind. Today the handler creates first
+// (known finding KF3).
+func (c *Ctx) importBodyBeforeCreate(prefix string) {
+	p := c.P
+	h := "http.(*Server).handlePostImport"
+	readsBody := func(in ssa.Instruction) bool {
+		cc := callCommon(in)
+		if cc == nil || p.PlainCalls("litefs.(*DB).Import")(in) {
+			return false
+		}
+		for _, a := range cc.Args {
+			if strings.Contains(p.Render(a), "p2.Body") {
+				return true
+			}
+		}
+		return false
+	}
+	c.Before(prefix+"/image-checked-before-create", h, p.PlainCalls("litefs.(*Store).CreateDBIfNotExists"), readsBody, 1,
+		"the database is created only after the handler has read (the header of) the request body",
+		"an import whose body is no database image, or a truncated one, into a name that does not exist leaves a new empty database in the store and on disk although the request failed")
 }
